@@ -22,7 +22,6 @@ RULE = ('Hypothesis: documents of 1-16 inline formulas ($..$ and \\(..\\)) from 
         'non-trivial = at least 7 formulas in one language (wrap-around) or a formula inside an argument / footnote / foreign-language scope; distinct by source text')
 ASSUMPTIONS = [
     'formulas that are empty or consist only of maths space are not generated (the statement speaks of formulas consisting of maths)',
-    'formulas inside headings are not generated (recorded finding F1: the heading argument is expanded twice, which advances the rotation twice)',
     'unknown languages use the English collection and share its rotation (README: settings for en are the fall back)',
 ]
 LEVEL_TEXT = ('Generated search with an exact reference rendering for every formula (placeholder identity incl. rotation per language, punctuation, surrounding blanks, positions).')
@@ -61,7 +60,7 @@ formula = st.tuples(st.sampled_from(['$', '\\(']),
                     st.one_of(body, body, body, st.sampled_from(['=', '\\le', '+', '.', '\\to'])),
                     st.sampled_from(['', '', '.', ',', ';', ':']),
                     st.sampled_from(['', '', '', '\\,', '\\quad ', '~', ' \\label{kk}', '\\nonumber', ' %c\n', '\\ ', '\n']))
-CTX = ['text', 'text', 'arg', 'colorarg', 'foot', 'item', 'cell', 'foreign-ru', 'foreign-de', 'other-ru', 'other-de', 'foreign-fr', 'foreign-en']
+CTX = ['text', 'text', 'head', 'arg', 'colorarg', 'foot', 'item', 'cell', 'foreign-ru', 'foreign-de', 'other-ru', 'other-de', 'foreign-fr', 'foreign-en']
 block = st.tuples(st.lists(st.sampled_from(CTX), min_size=1, max_size=2), st.lists(formula, min_size=1, max_size=4))
 sel = st.tuples(st.just('select'), st.sampled_from(['russian', 'german', 'english', 'french']))
 doc_s = st.tuples(st.sampled_from(['en', 'de', 'ru', 'fr', 'en-GB']), st.booleans(), st.integers(0, 5),
@@ -103,6 +102,9 @@ def render(doc):
                 pass
             elif c == 'arg':
                 r.src += '\\zzbf{'
+                closers.append('}')
+            elif c == 'head':
+                r.src += '\\section{'
                 closers.append('}')
             elif c == 'colorarg':
                 r.src += '\\textcolor{red}{'
